@@ -205,6 +205,28 @@ pub fn run(tier: Tier, fast_base: &Path) -> Report {
     for sh in shards {
         rep.merge(sh);
     }
+    // AdaptiveFlusher: the final flush on shutdown() / Drop must make every logged byte durable
+    for explicit in [true, false] {
+        for n in [1u64, 3] {
+            rep.evaluations += 1;
+            rep.add("flusher_shutdown_cases", 1);
+            let case = json!({"layer": "flusher", "records": n, "explicit_shutdown": explicit});
+            match flusher_final_flush(&fast_base.join("flusher"), n, explicit) {
+                Err(e) => rep.violation(Violation::new(&[("layer", "flusher"), ("kind", "flusher-error")], case, e)),
+                Ok((len, durable, syncs)) => {
+                    rep.nontrivial(&("flusher", n, explicit));
+                    if durable != len || len == 0 {
+                        rep.violation(Violation::new(
+                            &[("layer", "flusher"), ("kind", "no-final-flush"), ("shutdown", if explicit { "explicit" } else { "drop" })],
+                            case,
+                            format!("after AdaptiveFlusher shutdown the log holds {len} bytes but the last fsync covered {durable} ({syncs} sync event(s))"),
+                        ));
+                    }
+                }
+            }
+        }
+    }
+    let _ = std::fs::remove_dir_all(fast_base.join("flusher"));
     rep
 }
 
@@ -220,6 +242,13 @@ pub fn rebuild(case: &J, base: &Path) -> Option<(SDur, u64, Vec<SOp>, SeamRun, C
 }
 
 pub fn replay(case: &J, base: &Path) -> Vec<Violation> {
+    if case["layer"].as_str() == Some("flusher") {
+        let (n, explicit) = (case["records"].as_u64().unwrap_or(1), case["explicit_shutdown"].as_bool().unwrap_or(true));
+        return match flusher_final_flush(&base.join("flusher"), n, explicit) {
+            Ok((len, durable, _)) if durable == len && len > 0 => vec![],
+            other => vec![Violation::new(&[("layer", "flusher"), ("kind", "no-final-flush"), ("shutdown", if explicit { "explicit" } else { "drop" })], case.clone(), format!("{other:?}"))],
+        };
+    }
     match rebuild(case, base) {
         Some((dur, size, hist, run, im)) => eval(&mut Work::new(base.join("replay-seam-img")), dur, size, &hist, &run, &im),
         None => vec![],
